@@ -679,7 +679,41 @@ fn rand_ast(rng: &mut Rng) -> Ast {
         let pos = rng.below(root.len() + 1);
         root.insert(pos, e);
     }
-    Ast { srv: sect("sec", "server", vec![], root), files: vec![], bl_exists: true, bl_ips, fault: (String::new(), 0, vec![]) }
+    // sometimes the configuration itself is split over included files (TLC then sees the `inc` entries and has to
+    // expand them; the layout adds further, invisible, splits of its own)
+    let mut files: Vec<Vec<Entry>> = vec![];
+    if !root.is_empty() && rng.chance(1, 3) {
+        let i = rng.below(root.len());
+        let len = rng.range(1, root.len() - i);
+        let run: Vec<Entry> = root.drain(i..i + len).collect();
+        files.push(run);
+        root.insert(i, inc_entry(1));
+        if rng.chance(1, 2) {
+            // a second file, included from the first one: either a run of its entries or the inside of one of its sections
+            let sections: Vec<usize> = files[0].iter().enumerate().filter(|(_, e)| e.t != "key" && !e.es.is_empty()).map(|(i, _)| i).collect();
+            if !sections.is_empty() && rng.chance(1, 2) {
+                let k = *rng.pick(&sections);
+                let n = files[0][k].es.len();
+                let i = rng.below(n);
+                let len = rng.range(1, n - i);
+                let run: Vec<Entry> = files[0][k].es.drain(i..i + len).collect();
+                files[0][k].es.insert(i, inc_entry(2));
+                files.push(run);
+            } else {
+                let n = files[0].len();
+                let i = rng.below(n);
+                let len = rng.range(1, n - i);
+                let run: Vec<Entry> = files[0].drain(i..i + len).collect();
+                files[0].insert(i, inc_entry(2));
+                files.push(run);
+            }
+        }
+    }
+    Ast { srv: sect("sec", "server", vec![], root), files, bl_exists: true, bl_ips, fault: (String::new(), 0, vec![]) }
+}
+
+fn inc_entry(f: usize) -> Entry {
+    Entry { t: "inc".into(), k: "".into(), v: q("@"), ps: vec![], ob: "".into(), cb: "".into(), es: vec![], f }
 }
 
 fn paths_of(es: &[Entry], pre: &[usize], out: &mut Vec<Vec<usize>>) {
@@ -695,6 +729,10 @@ fn entry_at<'a>(es: &'a mut Vec<Entry>, p: &[usize]) -> &'a mut Entry {
     if p.len() == 1 { &mut es[p[0] - 1] } else { entry_at(&mut es[p[0] - 1].es, &p[1..]) }
 }
 
+fn entry_ref<'a>(es: &'a [Entry], p: &[usize]) -> &'a Entry {
+    if p.len() == 1 { &es[p[0] - 1] } else { entry_ref(&es[p[0] - 1].es, &p[1..]) }
+}
+
 fn insert_na(t: &str, i: usize) -> String {
     let cs: Vec<char> = t.chars().collect();
     let mut o: String = cs[..i.min(cs.len())].iter().collect();
@@ -705,8 +743,12 @@ fn insert_na(t: &str, i: usize) -> String {
 
 /// damage one token of a random configuration (a sample of the classes of Config.tla's Faults)
 fn inject(ast: &mut Ast, rng: &mut Rng) {
-    let mut ps = vec![];
-    paths_of(&ast.srv.es, &[], &mut ps);
+    let mut ps: Vec<(usize, Vec<usize>)> = vec![];
+    for f in 0..=ast.files.len() {
+        let mut one = vec![];
+        paths_of(if f == 0 { &ast.srv.es } else { &ast.files[f - 1] }, &[], &mut one);
+        ps.extend(one.into_iter().map(|p| (f, p)));
+    }
     if ps.is_empty() || rng.chance(1, 10) {
         match rng.below(4) {
             0 => { ast.srv.cb = String::new(); ast.fault = ("MissingCloseBrace".into(), 0, vec![]); }
@@ -716,25 +758,40 @@ fn inject(ast: &mut Ast, rng: &mut Rng) {
         }
         return;
     }
-    let p = rng.pick(&ps).clone();
-    let e = entry_at(&mut ast.srv.es, &p);
+    let numeric: Vec<(usize, Vec<usize>)> = ps.iter().filter(|(f, p)| {
+        let e = entry_ref(if *f == 0 { &ast.srv.es } else { &ast.files[*f - 1] }, p);
+        e.t == "key" && e.v.chars().next().map(|c| c.is_ascii_digit()).unwrap_or(false)
+    }).cloned().collect();
+    let (pf, p) = if !numeric.is_empty() && rng.chance(1, 4) { rng.pick(&numeric).clone() } else { rng.pick(&ps).clone() };
+    let e = entry_at(if pf == 0 { &mut ast.srv.es } else { &mut ast.files[pf - 1] }, &p);
     let cls: &str;
-    if e.t == "key" {
+    if e.t == "inc" {
+        match rng.below(4) {
+            0 => { e.v = String::new(); cls = "MissingValue"; }
+            1 => { e.v = q("@")[..2].to_string(); cls = "UnterminatedQuote"; }
+            2 => { e.f = 0; cls = "NoSuchInclude"; }
+            _ => { e.v = if rng.chance(1, 2) { format!("~{}", e.v) } else { format!("{}~", e.v) }; cls = "NonAscii"; }
+        }
+    } else if e.t == "key" {
         let numeric = e.v.chars().next().map(|c| c.is_ascii_digit()).unwrap_or(false);
         let quoted = e.v.starts_with('"');
-        match rng.below(8) {
-            0 => { e.v = String::new(); cls = "MissingValue"; }
-            1 if numeric => { e.v = rng.pick(&[format!("{}x", e.v), "1.5".to_string(), "--1".to_string(), "1e3".to_string()]).clone(); cls = "BadNumber"; }
-            2 if numeric => { let d: String = e.v.chars().filter(|c| c.is_ascii_digit()).collect(); e.v = format!("{}{}", d, rng.pick(&["T", "KB", " M", "KK"])); cls = "UnknownUnit"; }
-            3 if numeric => { e.v = rng.pick(&["9999999999G", "8589934592G", "99999999999999999999"]).to_string(); cls = "TooBig"; }
-            4 if numeric => { e.v = rng.pick(&["-1", "-1K"]).to_string(); cls = "OutOfRange"; }
-            5 if quoted => { e.v = if rng.chance(1, 2) { e.v[..e.v.len() - 1].to_string() } else { e.v[1..].to_string() }; cls = "UnterminatedQuote"; }
-            6 if quoted && ["mode", "level", "load_balancer_mode"].contains(&e.k.as_str()) => { e.v = q("bogus"); cls = "BadEnum"; }
+        let mut opts = vec!["MissingValue", "NonAscii"];
+        if numeric { opts.extend(["BadNumber", "UnknownUnit", "TooBig", "OutOfRange"]); }
+        if quoted { opts.push("UnterminatedQuote"); }
+        if quoted && ["mode", "level", "load_balancer_mode"].contains(&e.k.as_str()) { opts.push("BadEnum"); }
+        cls = *rng.pick(&opts);
+        match cls {
+            "MissingValue" => e.v = String::new(),
+            "BadNumber" => e.v = rng.pick(&[format!("{}x", e.v), "1.5".to_string(), "--1".to_string(), "1e3".to_string()]).clone(),
+            "UnknownUnit" => { let d: String = e.v.chars().filter(|c| c.is_ascii_digit()).collect(); e.v = format!("{}{}", d, rng.pick(&["T", "KB", " M", "KK"])); }
+            "TooBig" => e.v = rng.pick(&["9999999999G", "8589934592G", "99999999999999999999"]).to_string(),
+            "OutOfRange" => e.v = rng.pick(&["-1", "-1K"]).to_string(),
+            "UnterminatedQuote" => e.v = if rng.chance(1, 2) { e.v[..e.v.len() - 1].to_string() } else { e.v[1..].to_string() },
+            "BadEnum" => e.v = q("bogus"),
             _ => {
                 let n = e.v.chars().count();
                 let i = if e.v.contains('@') { *rng.pick(&[0, n]) } else { rng.below(n + 1) };
                 e.v = insert_na(&e.v, i);
-                cls = "NonAscii";
             }
         }
     } else {
@@ -754,7 +811,7 @@ fn inject(ast: &mut Ast, rng: &mut Rng) {
             }
         }
     }
-    ast.fault = (cls.to_string(), 0, p);
+    ast.fault = (cls.to_string(), pf, p);
 }
 
 fn random(dir: &str, n: usize) {
